@@ -150,6 +150,8 @@ def cases(tier, seed):
     # analyse, edit the same model object in place, analyse again with the same FMMetrics object
     for m in sp.structures_upto(3 if tier == 'quick' else 4):
         yield ('ME', m)
+    for t in list(cm.k1())[::2] + list(cm.k2_subset())[::3]:
+        yield ('ME', cm.on_carrier([t]))
     # histories on one object
     alpha = _history_alphabet()
     if tier == 'quick':
